@@ -141,7 +141,7 @@ def write_replay(pid, case, kind, extra):
     h = C.prog_hash(case["prog"], C.dumps(case.get("flav", {})))
     path = os.path.join(ROOT, "replays", f"{pid}-{h}.json")
     doc = {"property": pid, "kind": kind, "case_id": case["id"], "flav": case.get("flav"), "mode": case.get("mode"),
-           "tags": case["tags"], "prog": case["prog"],
+           "tags": case["tags"], "prog": case["prog"], "src": case.get("src", case["prog"]),
            "program_text": [C.cstmt(s) for s in case["prog"]],
            "observed": case.get("seen"), "expected_by_property": case.get("expected")}
     doc.update(extra)
@@ -161,10 +161,10 @@ def nontrivial(case):
 def shrink(pid, case, workdir):
     """greedy statement deletion while the oracle still rejects the implementation's observations"""
     from harness import runner as R
-    prog = list(case["prog"])
+    prog = list(case.get("src", case["prog"]))
 
     def fails(p):
-        c = {"id": "shrink", "prog": p, "flav": case.get("flav"), "mode": case.get("mode"), "tags": case["tags"]}
+        c = {"id": "shrink", "prog": p, "src": p, "flav": case.get("flav"), "mode": case.get("mode"), "tags": case["tags"]}
         R.run_impl([c])
         return bool(c["oracle"]), c
     best = case
@@ -183,7 +183,8 @@ def shrink(pid, case, workdir):
 
 def replay(path):
     doc = C.loads(open(path).read())
-    case = {"id": doc["case_id"], "prog": doc["prog"], "flav": doc.get("flav"), "mode": doc.get("mode"), "tags": doc.get("tags", [])}
+    case = {"id": doc["case_id"], "prog": doc.get("src", doc["prog"]), "src": doc.get("src", doc["prog"]),
+            "flav": doc.get("flav"), "mode": doc.get("mode"), "tags": doc.get("tags", [])}
     runner.run_impl([case])
     work = os.path.join(ROOT, ".run", f"replay-{os.getpid()}")
     broken = runner.run_model([case], work)
